@@ -78,7 +78,8 @@ fn build(setup: &Setup) -> Result<AnnotationStore, String> {
     if setup.complex {
         for side in 0..setup.texts.len() {
             let sels: Vec<SelectorBuilder> = (0..setup.nfrag).map(|f| SelectorBuilder::textselector(format!("r{}", side), Offset::simple(setup.frags[side][f].0, setup.frags[side][f].1))).collect();
-            let target = if sels.len() == 1 { sels.into_iter().next().unwrap() } else { SelectorBuilder::DirectionalSelector(sels) };
+            // (the enum variant for even sides, the constructor function for odd ones)
+            let target = if sels.len() == 1 { sels.into_iter().next().unwrap() } else if side % 2 == 0 { SelectorBuilder::DirectionalSelector(sels) } else { SelectorBuilder::directionalselector(sels) };
             store.annotate(AnnotationBuilder::new().with_id(format!("side{}", side)).with_target(target).with_data("s", "type", "side")).map_err(|e| e.to_string())?;
         }
         let sides: Vec<SelectorBuilder> = (0..setup.texts.len()).map(|s| SelectorBuilder::annotationselector(format!("side{}", s), None)).collect();
